@@ -210,6 +210,27 @@ static void spherical(unsigned long long& unit)
 						if(!(std::fabs(an - th) <= 64 * mc::U_ / std::sin(th))) fail("spherical_plain", key, "angle_to_z_not_theta", "Angle = " + mc::dec(an));
 					}
 				}
+	// Angle between vectors of the axis alphabet: defined for every pair, also parallel and antiparallel ones
+	if(mc::mine(unit++))
+	{
+		auto AX = axes();
+		for(size_t i = 0; i < AX.size(); i += 2)
+			for(size_t j = 0; j < AX.size(); j++)
+				for(double sc : {1.0, -1.0, 1e-6, -3.7e5})
+				{
+					// j == i with the scale factors gives exactly parallel / antiparallel pairs
+					Vector v({AX[i].x * 0.37, AX[i].y * 0.37, AX[i].z * 0.37}), w({AX[j].x * sc, AX[j].y * sc, AX[j].z * sc});
+					double an = Angle(v, w);
+					cases++;
+					ld dot = (ld)v[0] * w[0] + (ld)v[1] * w[1] + (ld)v[2] * w[2];
+					ld nv = sqrtl((ld)v[0] * v[0] + (ld)v[1] * v[1] + (ld)v[2] * v[2]), nw = sqrtl((ld)w[0] * w[0] + (ld)w[1] * w[1] + (ld)w[2] * w[2]);
+					ld cr = dot / (nv * nw);
+					std::string key = "angle;v=" + mc::dec(v[0]) + "," + mc::dec(v[1]) + "," + mc::dec(v[2]) + ";w=" + mc::dec(w[0]) + "," + mc::dec(w[1]) + "," + mc::dec(w[2]);
+					if(!(an >= 0 && an <= M_PI)) fail("angle", key, "angle_not_in_0_pi", "Angle = " + mc::dec(an));
+					else if(!(fabsl(cosl((ld)an) - cr) <= 8 * mc::U_)) fail("angle", key, "angle_wrong", "cos(Angle) = " + mc::dec(std::cos(an)) + " expected " + mc::dec((double)cr));
+					if(!mc::same_bits(an, Angle(w, v))) fail("angle", key, "angle_not_symmetric", "Angle(v,w) != Angle(w,v)");
+				}
+	}
 	mc::count("spherical_cases", cases);
 	mc::count("right_handedness_checks", righthanded);
 	mc::count("evaluations", cases);
